@@ -63,6 +63,26 @@ NEEDS = {
  "C18-c": "ISO codes packed without terminators; the lookup copies two characters into a function-local static buffer and returns it: every returned ISO string changes with the next lookup (each call still correct at the moment of return)",
  "C19-c": "static one-entry memo in ecc_lookup keyed on (PI >> 12) & 15 without the 'PI known' guard: an unknown PI aliases nibble F, so one instance's lookup leaks into another's country",
  "C20-c": "narrow-build space substitution moved into the parser and re-checking only the data block's error: only the RDSPARSER_DISABLE_UNICODE builds, info threshold raised, block B corrected, data block clean, byte >= 0x7F: the cell is overwritten with a space",
+ "C01-d": "set_pty switches the extended check on for its own buffer update while a PTYN fragment is held: in normal mode, with a PTY known and some PTYN text stored, a single reception of a different PTY is not shown",
+ "C02-d": "per-segment cache of the last error-free 10A words: an error-free 10A group equal to the last error-free one for that segment returns early, although a corrected group overwrote the cells in between (PTYN thresholds raised, progressive off; A ... B ... A)",
+ "C03-d": "cached min(info, data) threshold lags one setter call behind and gates on (eB | eData): after lowering one threshold a block above the new level is still used, so block B's don't-care bits select the cells",
+ "C04-d": "ECC and country stored before any callback, the country callback nested under 'ECC changed': a country change in a 1A group whose ECC is unchanged (PI nibble changed or became known) is silent",
+ "C05-d": "month/day computed by walking a 12-entry month-length table with a leap rule that forgets the 400-year case: local date 2000-02-29 reads month_length[12] and beyond (needs a CT callback and that exact local day)",
+ "C06-d": "fast path when both converted characters of a pair are already stored: bytes 0x7F/0xFF convert to a blank and so bypass the error-free-only rule on blank cells (thresholds raised, errors non-zero, both bytes in {0x20,0x7F,0xFF})",
+ "C07-d": "progressive guard evaluated once per chunk against its first cell (error level computed once per chunk)",
+ "C08-d": "last_rt_flag reset moved from clear to init (same family as C13-b): the first accepted noisy group after a clear is dropped against the flag from before the clear",
+ "C09-d": "buffer_clear wipes the candidate stage only while the extended check is on: a value repeated with the check off survives clear as a candidate and is shown after ONE reception once the check is enabled in the reset state",
+ "C10-d": "promotion of a confirmed AF code copies the whole candidate byte into the list: a pending neighbour in the same octet is listed after one reception, without callback",
+ "C11-d": "country taken at once under the extended check when a PI and SOME ECC are confirmed, although the lookup uses the received ECC: the country can contradict the shown ECC",
+ "C12-d": "year derived from the broadcast UTC day, month/day from the local day: off by one year when the offset carries across 31 Dec / 1 Jan",
+ "C13-d": "an error-free group 2 equal to the previous error-free group 2 is swallowed, and the remembered group survives clear: the first RT group after a reset is ignored if it repeats the last one before it",
+ "C14-d": "parse_string dispatches only if block B's error is within the DATA threshold (should be INFO): with info > data thresholds an 18-digit line with a corrected block B returns true and does nothing",
+ "C15-d": "PS callback pointer and user data fetched once per group before the TA/MS callbacks run: a TA/MS callback that changes the user data or unregisters PS is not honoured within the same call",
+ "C16-d": "clear wipes the RT buffers only when a clean RT group has been seen (same family as C13-a): RT text accepted from noisy groups survives the reset",
+ "C17-d": "progressive flags packed in a bitmask; the setter compares the masked bit (2 or 4) with a bool: writing 'true' to RT/PTYN when already on toggles it off",
+ "C18-d": "16-character PTY tables turned into sparse override tables with fallback to the full name; RDS code 14 missing: 'Serious classical' (17 characters)",
+ "C19-d": "file-scope static 'modified' flag in string.c set by string updates and consumed by the group handlers' callback test: one instance's text change makes another instance fire a spurious text callback",
+ "C20-d": "get_available sums the error levels in rdsparser_string_t arithmetic: exact as wchar_t, wraps mod 256 in the narrow build for the 64-cell RT buffer (sum of (10 - level) = 256 or 512), so an A/B switch-back does not empty the buffer",
  "C20-a": "end-of-line decided on the converted character: in the RDSPARSER_DISABLE_UNICODE builds an error-free 0x00 byte is stored as end-of-text marker; default build unaffected",
 }
 for sid in sorted(os.listdir(os.path.join(VERIF, "seeded"))):
